@@ -90,7 +90,9 @@ def h_rotate_views(env, N, mask, form):
         env.goal('row%d_phase' % k, eq(obj.ps[k], pe))
 
 
-def h_rotate_pauli(env, N, mask):
+def h_rotate_pauli(env, N, mask, dtype='int64'):
+    """dtype: element type of the rotated operator's string array (int64 as the library builds it; uint8 as rows of
+    utils.binary_repr or numpy.unpackbits are)"""
     M = Mods(env)
     n = N if mask is None else sum(mask)
     gg = env.bits('gen', (2 * n,))
@@ -98,7 +100,13 @@ def h_rotate_pauli(env, N, mask):
     G = M.pa.Pauli(gg.copy(), pg)
     g = env.bits('g', (2 * N,))
     p = env.phases('p', (1,))[0]
-    P = M.pa.Pauli(g.copy(), p)
+    if dtype == 'int64':
+        P = M.pa.Pauli(g.copy(), p)
+    elif env.symbolic:
+        from symclif.shim_numpy import as_unsigned
+        P = M.pa.Pauli(as_unsigned(g, 8), p)
+    else:
+        P = M.pa.Pauli(np.array([int(x) for x in g], dtype=np.uint8), p)
     mk = None if mask is None else np.array(mask, dtype=bool)
     r = env.run(lambda: P.rotate_by(G) if mk is None else P.rotate_by(G, mk))
     env.goal('no_exception', b_not(r.raised))
@@ -223,6 +231,8 @@ def jobs(tier):
         for m in mks:
             J.append(dict(harness=('c02', 'h_rotate_list'), params=dict(N=N, mask=m, L=Lmax, kind='list')))
             J.append(dict(harness=('c02', 'h_rotate_pauli'), params=dict(N=N, mask=m)))
+            if N <= 2:
+                J.append(dict(harness=('c02', 'h_rotate_pauli'), params=dict(N=N, mask=m, dtype='uint8')))
             if N <= 3:
                 J.append(dict(harness=('c02', 'h_undo'), params=dict(N=N, mask=m, L=1)))
         for kind in ('poly', 'map', 'state'):
